@@ -42,6 +42,16 @@ CHECKS = {
   note="Proof level applies to rendering + layout layer only; the rest of the quantifier (all UTF-8 inputs through all stages) is sampled: corpus files, truncations at every boundary of short files, 12 mutation kinds, nesting generators to depth 200, random syntax-heavy strings.",
   technique="Lean 4 proof (loop invariants over documents) for rendering/layout + fuzzing oracle with panic/abort/timeout detection for unmodelled stages",
   ref="C11"),
+ "C12": dict(
+  text="Lean 4 theorem `manifest_order_independent`: the Cargo.toml dependency section does not depend on the iteration order of the dependency table (any two permutations of a table with distinct names give the same list; byte-wise string order proved total, transitive and antisymmetric), with the kernel-checked witness that the pre-fix unsorted producer did depend on it. All other outputs (generated Rust, diagnostics and their order, formatter output and diffs, multi-file project trees) have no model: they are hashed twice in-process and in three separate processes with different HOME/TZ/locale/working directory and must be identical.",
+  note="Only one hash-iteration site is modelled; other sites are covered by the cross-process oracle only (it found and a fix: commit repaired the missing-field diagnostic order).",
+  technique="Lean 4 proof (sorting + permutation invariance) + manifest correspondence + cross-process byte-comparison oracle",
+  ref="C12"),
+ "C15": dict(
+  text="Lean 4 theorems about the model of add_rust_crate / generate_cargo_toml: every accepted dependency is pinned (version or path; the whole known-good table checked), a crate without a known-good version is always refused, the declared names are exactly the fixed runtime/feature crates plus the rust:: crates (both directions), and no name is declared twice (valid TOML keys). Feature detection (serde/async/web → flags) is modelled as the three scanner outcomes; which constructs trigger a scanner is oracle-only.",
+  note="Tie: model manifest = Cargo.toml written by ProjectGenerator (flags × crate sets, whole table) and by `incan build` with a stub cargo (8 feature-trigger combinations, imports in main and dependency modules, project names). Oracle: exactness, pinning, package/binary name, references found in generated sources ⊆ declared.",
+  technique="Lean 4 proof (table + list reasoning) + manifest correspondence + exactness/pinning oracle",
+  ref="C15"),
  "C18": dict(
   text="Lean 4 theorem `converges`: for every history of didOpen/didChange/didClose over any number of documents and every interleaving of the handlers' store steps (each handler starts in arrival order, stores at any later time), after quiescence the stored text of each document is that of the last notification sent for it, and nothing after a close — proved by an invariant over schedule prefixes for the ticket protocol the server uses after the fix. The pre-fix protocol is kept in the model with kernel-checked counter-examples (stale overwrite, close undone, broken text not stored).",
   note="Assumes the framework first-polls handlers in arrival order (tower-lsp buffer_unordered). Tie: the real IncanLanguageServer is driven as a tower Service, handler futures polled by hand in seeded schedules with the client channel drained on demand; its own receive/store event order (cfg(incan_verif) hook) is replayed on the model, which must accept every real store and predict the final hover. Real threads are not exercised.",
